@@ -1,4 +1,5 @@
 import ShellOp.Proofs.Snapshot
+import ShellOp.Model.FactoryStore
 /-!
 # C02 — Synchronization objects and snapshots equal the set of matching objects
 
@@ -788,5 +789,165 @@ example : informerLife { keepFull := false, flt := id, chk := id } (fun o => o.l
     [⟨⟨1, 1, 1⟩, 5, 1⟩] [.set ⟨⟨1, 1, 2⟩, 6, 1⟩]
     [.set ⟨⟨1, 1, 1⟩, 7, 0⟩, .del ⟨1, 1, 2⟩, .set ⟨⟨1, 1, 2⟩, 8, 1⟩]
     = [⟨⟨1, 1, 2⟩, none, 8, 8⟩] := by decide
+
+/-! ## 6. the shared-informer store keeps serving every binding that has not stopped
+
+Theorems 1–5 take "every informer handles the watch events of its own scope" as the environment's
+part. Between client-go and a `resourceInformer` sits the operator's own `FactoryStore`
+(`factory.go`): informers of different bindings with the same kind / namespace / selectors hang on
+ONE shared informer. The clause "once the cluster is quiet they equal the real cluster state" for
+all configurations (several bindings) and all histories (namespaces deleted, monitors stopped)
+therefore needs: whatever the other users of a factory do, an informer that was started and has
+not itself been stopped stays registered with a running shared informer. -/
+
+theorem fsServed_iff (s : FStore) (inf : Nat) (idx : Key) :
+    fsServed s inf idx = true ↔ ∃ g, kget FEntry.idx s idx = some g ∧ inf ∈ g.regs := by
+  unfold fsServed
+  cases hg : kget FEntry.idx s idx with
+  | none => simp
+  | some g => simp
+
+/-- `Start` serves the informer it is called for, in every store. -/
+theorem factory_store_start_serves (s : FStore) (inf : Nat) (idx : Key) :
+    fsServed (fsStart s inf idx) inf idx = true := by
+  rw [fsServed_iff]
+  unfold fsStart
+  cases h : kget FEntry.idx s idx with
+  | none => exact ⟨_, by rw [kget_kput]; exact if_pos rfl, by simp⟩
+  | some f => exact ⟨_, by rw [kget_kput]; exact if_pos rfl, by simp⟩
+
+/-- a `Start` (of any informer, on any index) ends nobody's service -/
+theorem fsStart_keeps (s : FStore) (inf : Nat) (idx : Key) (i : Nat) (x : Key)
+    (h : fsServed s inf idx = true) : fsServed (fsStart s i x) inf idx = true := by
+  rw [fsServed_iff] at h ⊢
+  obtain ⟨g, hg, hmem⟩ := h
+  unfold fsStart
+  by_cases hx : idx = x
+  · subst hx
+    simp only [hg]
+    refine ⟨_, by rw [kget_kput]; exact if_pos rfl, ?_⟩
+    by_cases hi : inf = i
+    · simp [hi]
+    · simp [List.mem_filter, hmem, hi]
+  · cases hgx : kget FEntry.idx s x with
+    | none => exact ⟨g, by rw [kget_kput]; simp [hx, hg], hmem⟩
+    | some f => exact ⟨g, by rw [kget_kput]; simp [hx, hg], hmem⟩
+
+/-- a `Stop` of another informer, or under another index, ends nobody's service: the factory is
+cancelled and deleted only when no registration is left -/
+theorem fsStop_keeps (s : FStore) (inf : Nat) (idx : Key) (i : Nat) (x : Key)
+    (h : fsServed s inf idx = true) (hne : ¬ (i = inf ∧ x = idx)) :
+    fsServed (fsStop s i x) inf idx = true := by
+  rw [fsServed_iff] at h ⊢
+  obtain ⟨g, hg, hmem⟩ := h
+  unfold fsStop
+  by_cases hx : idx = x
+  · subst hx
+    have hi : inf ≠ i := fun e => hne ⟨e.symm, rfl⟩
+    have hfil : inf ∈ g.regs.filter (· != i) := by simp [List.mem_filter, hmem, hi]
+    simp only [hg]
+    by_cases hc : g.regs.contains i = true
+    · rw [if_pos hc]
+      have hemp : (g.regs.filter (· != i)).isEmpty = false := by
+        cases hl : g.regs.filter (· != i) with
+        | nil => rw [hl] at hfil; cases hfil
+        | cons a t => rfl
+      simp only [hemp, Bool.false_eq_true, if_false]
+      exact ⟨_, by rw [kget_kput]; exact if_pos rfl, hfil⟩
+    · rw [if_neg hc]; exact ⟨g, hg, hmem⟩
+  · cases hgx : kget FEntry.idx s x with
+    | none => exact ⟨g, hg, hmem⟩
+    | some f =>
+      simp only []
+      by_cases hc : f.regs.contains i = true
+      · rw [if_pos hc]
+        by_cases he : (f.regs.filter (· != i)).isEmpty = true
+        · simp only [he, if_true]
+          exact ⟨g, by rw [kget_kdel]; simp [hx, hg], hmem⟩
+        · simp only [he, Bool.false_eq_true, if_false]
+          exact ⟨g, by rw [kget_kput]; simp [hx, hg], hmem⟩
+      · rw [if_neg hc]; exact ⟨g, hg, hmem⟩
+
+/-- No operation of the store other than the informer's own `Stop` ends its service: not the
+`Start` of another (or the same) informer on any index, not the `Stop` of another informer on the
+same index (the factory is cancelled only when no registration is left), not a `Stop` under another
+index. -/
+theorem factory_store_keeps_users (s : FStore) (inf : Nat) (idx : Key) (op : FOp)
+    (h : fsServed s inf idx = true) (hop : op ≠ .stop inf idx) :
+    fsServed (fsStep s op) inf idx = true := by
+  cases op with
+  | start i x => exact fsStart_keeps s inf idx i x h
+  | stop i x =>
+    refine fsStop_keeps s inf idx i x h ?_
+    rintro ⟨rfl, rfl⟩
+    exact hop rfl
+
+/-- **C02.6 `factory_store_serves_users`** For every history of the process-wide store — any
+informers of any bindings starting and stopping before (`pre`) and after (`post`) — an informer
+that was started and whose own `Stop` has not happened since is registered with a running shared
+informer: its cache keeps receiving the watch events theorems 1–5 assume. -/
+theorem factory_store_serves_users (pre post : List FOp) (inf : Nat) (idx : Key)
+    (hpost : FOp.stop inf idx ∉ post) :
+    fsServed (fsRun [] (pre ++ [.start inf idx] ++ post)) inf idx = true := by
+  unfold fsRun
+  rw [List.foldl_append, List.foldl_append]
+  simp only [List.foldl_cons, List.foldl_nil]
+  generalize List.foldl fsStep [] pre = s0
+  have h0 : fsServed (fsStep s0 (.start inf idx)) inf idx = true := factory_store_start_serves s0 inf idx
+  generalize fsStep s0 (.start inf idx) = s1 at h0
+  induction post generalizing s1 with
+  | nil => exact h0
+  | cons op t ih =>
+    simp only [List.foldl_cons]
+    apply ih
+    · intro hm; exact hpost (List.mem_cons_of_mem _ hm)
+    · exact factory_store_keeps_users s1 inf idx op h0 (fun e => hpost (e ▸ List.mem_cons_self ..))
+
+/-- non-vacuity: bindings A (informer 1) and B (informer 2) share the factory of index `x`, A
+leaves (namespace deleted), comes back as informer 3 and leaves again, a third index comes and
+goes: B is served throughout; after its own `Stop` it is not. -/
+example :
+    let x : Key := ⟨1, 1, 0⟩
+    let y : Key := ⟨2, 1, 0⟩
+    let ops := [FOp.start 1 x, .start 2 x, .stop 1 x, .start 3 x, .start 4 y, .stop 3 x, .stop 4 y]
+    fsServed (fsRun [] ops) 2 x = true ∧ fsServed (fsRun [] (ops ++ [.stop 2 x])) 2 x = false ∧
+    fsRun [] (ops ++ [.stop 2 x]) = [] := by decide
+
+/-- Witness that the "last user" test carries the theorem: with the usage counter kept on the value
+copy `get` returns (`fsStopCounterOnCopy`), the first informer leaving a shared factory cancels it
+for the sibling that is still there. -/
+theorem factory_counter_on_copy_witness :
+    let x : Key := ⟨1, 1, 0⟩
+    let s := fsStart (fsStart [] 1 x) 2 x
+    fsServed (fsStop s 1 x) 2 x = true ∧ fsServed (fsStopCounterOnCopy s 1 x) 2 x = false := by decide
+
+
+/-! ## 7. the lists the informer loops run over name every requested entry exactly once -/
+
+theorem noRepeat_iff (l : List Nat) : noRepeat l = true ↔ l.Nodup := by
+  induction l with
+  | nil => simp [noRepeat]
+  | cons a t ih => simp [noRepeat, ih]
+
+/-- **C02.7 `config_names_each_once`** For every `matchNames` list — repeats anywhere, adjacent or
+not — `names()` / `namespaces()` (model `dedupNames`) hand each requested entry to the informer
+loops exactly once; this is the predicate the driver evaluates on `oracle uniq` lines, there on the
+lists the real `MonitorConfig.names()` / `namespaces()` returned. -/
+theorem config_names_each_once (l : List Nat) : uniqExact l (dedupNames l) = true := by
+  unfold uniqExact
+  simp only [Bool.and_eq_true, List.all_eq_true, List.contains_iff_mem, noRepeat_iff]
+  exact ⟨⟨dedupNames_nodup l, fun x hx => (mem_dedupNames l x).2 hx⟩, fun x hx => (mem_dedupNames l x).1 hx⟩
+
+theorem config_names_each_once_cfg (mc : MonCfg) :
+    uniqExact mc.names mc.namesEff = true ∧
+    (mc.nsSel = false → mc.nss.isEmpty = false →
+      mc.namespaces = (dedupNames mc.nss).map some ∧ uniqExact mc.nss (dedupNames mc.nss) = true) := by
+  refine ⟨config_names_each_once _, fun h1 h2 => ⟨?_, config_names_each_once _⟩⟩
+  simp [MonCfg.namespaces, h1, h2]
+
+/-- non-vacuity: a non-adjacent repeat; dropping only *consecutive* repeats is not enough -/
+example : dedupNames [1, 2, 1] = [1, 2] ∧ uniqExact [1, 2, 1] [1, 2] = true ∧
+    uniqExact [1, 2, 1] [1, 2, 1] = false ∧ uniqExact [1, 1, 2] [1, 2] = true ∧
+    uniqExact [1, 2] [1] = false ∧ uniqExact [1] [1, 3] = false := by decide
 
 end ShellOp.Snapshot.C02
